@@ -1217,6 +1217,22 @@ func (tr *fnTrans) havocLoop(li *loopInfo, b *ssa.BasicBlock) {
 // checkPure: a contract marked `pure` promises no heap effect at all (callers keep their heap);
 // the body may therefore not store, allocate, append, copy or call anything that is not pure.
 func (tr *fnTrans) checkPure() {
+	// observational purity: nothing that existed before the call is modified (the frame obligations with an
+	// empty modifies clause prove it) and the results cannot refer to memory (scalars and strings only), so
+	// whatever the body allocates is unreachable for the caller.
+	if len(tr.c.Modifies) == 0 {
+		scalar := true
+		res := tr.fn.Signature.Results()
+		for i := 0; i < res.Len(); i++ {
+			s, err := tr.v.sortOf(res.At(i).Type())
+			if err != nil || s == nil || !(s == SInt || s == SBool || s == SF64 || s == SStr) {
+				scalar = false
+			}
+		}
+		if scalar {
+			return
+		}
+	}
 	for _, b := range tr.fn.Blocks {
 		for _, in := range b.Instrs {
 			switch in := in.(type) {
